@@ -22,6 +22,8 @@ def run(ctx):
     try:
         with E2E(ctx, judge_gap=True) as e2e:
             _run(ctx, e2e)
+            if ctx.shard == ctx.nshards - 1 and ctx.only is None:
+                _shipped(ctx, e2e, "akimotoite")
     finally:
         cc.stop()
     cc.report(ctx, ["calculator.py:Calculator._load", "calculator.py:Calculator._interpolate_modes",
@@ -48,6 +50,7 @@ def prepare(ctx, e2e, rng, ds, cfg, case_id):
 def expected_static(ds, cfg, wd, v_array):
     """Oracle pipeline for the static part, from the files: {pair: array(ntv)} in Ry/bohr^3, plus the key set."""
     tab = F.read_input02_text(open(f"{wd}/{cfg['elast']['input']}").read())
+    tab["components"] = {p: v for p, v in tab["components"].items() if p is not None}
     comps = {p: numpy.array(vals) for p, vals in tab["components"].items()}
     system = cfg["elast"]["settings"].get("symmetry", {}).get("system")
     if system not in (None, "triclinic"):
@@ -284,3 +287,75 @@ def metamorphic_static(ctx, e2e, rng, calc, ds, cfg, wd, case_id, cls):
         if d > 1e-10:
             ctx.violation("phonon-part-depends-on-static-table", f"{cls}: doubling the static table changes total - static for c{p[0]}{p[1]} by {d:.3g}", case_id)
             break
+
+
+def _shipped(ctx, e2e, example):
+    """The shipped example (real DFPT data, no closed-form spectrum): every non-shear object is judged by the monitor's second
+    reference, the scheduler and VRH monitors run, and the static part is isolated as M(2c) - M(c) and compared with the
+    oracle's fit of the file's own (V, c) table."""
+    import shutil
+    import yaml
+    from ..runner import repo_dir
+    src = os.path.join(repo_dir(), "examples", example)
+    if not os.path.exists(os.path.join(src, "input01")) or os.path.getsize(os.path.join(src, "input01")) == 0:
+        return
+    case_id = "shipped-" + example
+    wd = e2e.workdir(case_id)
+    cfg = yaml.safe_load(open(os.path.join(src, "settings.yaml")))
+    for f in (cfg["qha"]["input"], cfg["elast"]["input"], "settings.yaml"):
+        shutil.copy(os.path.join(src, f), wd)
+    calc, exc = e2e.run(os.path.join(wd, "settings.yaml"), case_id, spectrum=None)
+    ctx.evaluation("shipped|" + example, (example,), sample={"example": example, "system": cfg["elast"]["settings"].get("symmetry", {}).get("system")})
+    if exc is not None:
+        e2e.report_construction_failure(exc, case_id, "shipped-" + example)
+        return
+    v = numpy.asarray(calc.v_array, float)
+    static_ref, tab = expected_static(None, cfg, wd, v)
+    got_keys = {tuple(int(x) for x in k.voigt) for k in calc.modulus_keys}
+    if got_keys != set(static_ref):
+        ctx.violation("component-set", f"{example}: components {sorted(got_keys)} but the filled table has {sorted(static_ref)}", case_id)
+        return
+    ax = e2e.obs.get("axial_strains")
+    if ax is not None and tab["lattice"] is not None:
+        lat = numpy.array(tab["lattice"])
+        afit = numpy.stack([A.fit_eulerian_cubic(tab["volumes"], lat[:, a], v, times_v=True) for a in range(3)], axis=1)
+        ext = numpy.vstack([afit[:1], afit, afit[-1:]])
+        dl = (ext[2:] - ext[:-2]) / (ext[2:] + ext[:-2])
+        disc = dl / dl.sum(axis=1, keepdims=True)
+        e_disc = numpy.abs(ax / ax.sum(axis=1, keepdims=True) - disc).max()
+        ctx.maxi("strain_fraction_err/tol(discrete operator)", e_disc / 1e-8)
+        if e_disc > 1e-8:
+            ctx.violation("strain-fractions:discrete-log-derivative", f"{example}: strain fractions differ from the discrete log-derivatives of the fitted axes by {e_disc:.3g}", case_id)
+    # second run with the static table doubled: M(2c) - M(c) is the static part
+    text = open(os.path.join(wd, cfg["elast"]["input"])).read().splitlines()
+    nv = tab["nv"]
+    rows = [ln.split() for ln in text[3:3 + nv]]
+    text[3:3 + nv] = [" ".join([r[0]] + [repr(2.0 * float(x)) for x in r[1:]]) for r in rows]
+    wd2 = e2e.workdir(case_id + "-x2")
+    for f in (cfg["qha"]["input"], "settings.yaml"):
+        shutil.copy(os.path.join(src, f), wd2)
+    open(os.path.join(wd2, cfg["elast"]["input"]), "w").write("\n".join(text) + "\n")
+    calc2, exc = e2e.run(os.path.join(wd2, "settings.yaml"), case_id + "-x2", spectrum=None)
+    if exc is not None:
+        e2e.report_construction_failure(exc, case_id, "shipped-x2")
+        return
+    npts = 0
+    for key in calc.modulus_keys:
+        p = tuple(int(x) for x in key.voigt)
+        k2 = next(k for k in calc2.modulus_keys if tuple(int(x) for x in k.voigt) == p)
+        for store1, store2, nm in ((calc.modulus_isothermal, calc2.modulus_isothermal, "isothermal"), (calc.modulus_adiabatic, calc2.modulus_adiabatic, "adiabatic")):
+            d = numpy.asarray(store2[k2]) - numpy.asarray(store1[key])
+            fin = numpy.isfinite(d)
+            scale = numpy.abs(static_ref[p]).max() + 1e-300
+            err = numpy.abs(d - static_ref[p][None, :])[fin].max() / scale
+            npts += int(fin.sum())
+            ctx.maxi("shipped_static_part_err/tol", err / 1e-8)
+            if not (err <= 1e-8):
+                ctx.violation(f"static-part:{nm}:{T.classify(*p)}", f"{example}: M(2c)-M(c) of c{p[0]}{p[1]} differs from the cubic Eulerian-strain fit of the "
+                              f"file's own V*c table by {err:.3g} (relative)", case_id)
+                break
+    ctx.count("grid_points_compared", npts)
+    try:
+        judge_vrh(ctx, calc, calc.volume_base, case_id, tag=example)
+    except AttributeError:
+        pass
